@@ -71,7 +71,9 @@ func keyClass(store, k string) string {
 // exports again. The running chain is not modified.
 func (c *Chain) ModuleRoundTrip() []RTIssue {
 	var issues []RTIssue
-	add := func(k, f string, a ...interface{}) { issues = append(issues, RTIssue{Key: k, Detail: fmt.Sprintf(f, a...)}) }
+	add := func(k, f string, a ...interface{}) {
+		issues = append(issues, RTIssue{Key: k, Detail: fmt.Sprintf(f, a...)})
+	}
 	enc := encoding.MakeConfig(app.ModuleBasics)
 	cdc := enc.Marshaler
 	ctx := c.ReadCtx()
@@ -97,9 +99,15 @@ func (c *Chain) ModuleRoundTrip() []RTIssue {
 	}
 	// the modules' own validation
 	validators := map[string]func(json.RawMessage) error{
-		"xibc":      func(bz json.RawMessage) error { return xibcmodule.AppModuleBasic{}.ValidateGenesis(cdc, enc.TxConfig, bz) },
-		"aggregate": func(bz json.RawMessage) error { return aggregatemodule.AppModuleBasic{}.ValidateGenesis(cdc, enc.TxConfig, bz) },
-		"rvesting":  func(bz json.RawMessage) error { return rvestingmodule.AppModuleBasic{}.ValidateGenesis(cdc, enc.TxConfig, bz) },
+		"xibc": func(bz json.RawMessage) error {
+			return xibcmodule.AppModuleBasic{}.ValidateGenesis(cdc, enc.TxConfig, bz)
+		},
+		"aggregate": func(bz json.RawMessage) error {
+			return aggregatemodule.AppModuleBasic{}.ValidateGenesis(cdc, enc.TxConfig, bz)
+		},
+		"rvesting": func(bz json.RawMessage) error {
+			return rvestingmodule.AppModuleBasic{}.ValidateGenesis(cdc, enc.TxConfig, bz)
+		},
 	}
 	valid := true
 	for _, m := range []string{"xibc", "aggregate", "rvesting"} {
